@@ -9,6 +9,7 @@ type Profile struct {
 	MinCmds, MaxCmds int
 	KeepSession      int  // 0 never, 1 always, 2 drawn (about one in three)
 	Faults           bool // attach backend faults to commands
+	RefuseFaults     bool // include "the slice refuses new connections while the command runs"
 	FaultPct         int  // chance (percent) that a command carries a fault (default 30)
 	Reload           bool // namespace configuration changes
 	ReloadWeight     int  // weight of a configuration change among the commands (default 7)
@@ -193,6 +194,12 @@ func Build(c Case, p Profile, raws []RawCmd, nsess int) []Cmd {
 				if g.vars {
 					ons = append(ons, OnSetVars, OnSetVars)
 				}
+				if p.RefuseFaults {
+					ons = append(ons, OnConnect)
+					if IsSharded(kind) && len(target) > 1 {
+						ons = append(ons, OnConnect, OnConnect, OnConnect)
+					}
+				}
 			case kind == KCommit:
 				ons = []string{OnCommit}
 			case kind == KRollback, kind == KQuit, kind == KDrop, kind == KDropHard:
@@ -211,6 +218,9 @@ func Build(c Case, p Profile, raws []RawCmd, nsess int) []Cmd {
 					acts = append(acts, ActStall, ActStall)
 				}
 				f.Action = acts[r.FAct%len(acts)]
+				if f.On == OnConnect {
+					f.Action = ActRefuse
+				}
 				// mostly a slice the command touches / the session holds
 				cand := append([]int{}, target...)
 				if !IsStmt(kind) {
